@@ -450,6 +450,7 @@ func (m *c16) worlds() []func(r *core.Rand) *seqWorld {
 			}},
 			{"Unmarshal(batch bytes) again", func() { dec.Unmarshal(wire) }},
 			{"Unmarshal(other batch bytes)", func() { dec.Unmarshal(wire2) }},
+			{"Unmarshal(empty list)", func() { dec.Unmarshal([]byte{0}) }},
 			{"UnmarshalBatchedTokenResponses(garbage)", func() { batched.UnmarshalBatchedTokenResponses(wire) }},
 		}
 		return w
